@@ -15,7 +15,8 @@
    written when the last line has been consumed.
 
    Normalised record fields (all present in every record):
-     ev, run, job, kind, flag, weak, named, txt, outcome, jobs, faults *)
+     ev, run, job, kind, flag, weak, named, txt, outcome, jobs, faults,
+     files, gs, xs, ts, ls (sequences of strings), nums (sequence of integers), facts *)
 EXTENDS Integers, Sequences, FiniteSets, TLC, Json
 
 Trace == ndJsonDeserialize("trace.ndjson")
@@ -38,16 +39,20 @@ VARIABLES l,        \* next line to consume
           rname,    \* the sentinel name that entry announces
           mdjob,    \* job directory -> job it was created for
           tainted,  \* the known "unforked-merge" defect has manifested in this run
+          ffacts,   \* file key -> [users, top, retained, vol, svol, chunk] (MroSem.FileFacts)
+          vmode,    \* VDR mode of the run ("" = files are not observed)
           bad       \* violations found so far
 
 vars == <<l, run, exp, faults, begun, ended, killed, done0, failed, phase, pcr, weakp, jowner, routing,
-          rname, mdjob, tainted, bad>>
+          rname, mdjob, tainted, ffacts, vmode, bad>>
+fvars == <<ffacts, vmode>>
 jvars == <<jowner, routing, rname, mdjob>>
 
 Init == /\ l = 1 /\ run = "" /\ exp = <<>> /\ faults = <<>> /\ begun = {} /\ ended = <<>>
         /\ killed = {} /\ done0 = {} /\ failed = {} /\ phase = 0 /\ pcr = "C06"
         /\ weakp = FALSE /\ tainted = FALSE /\ bad = <<>>
         /\ jowner = <<>> /\ routing = "" /\ rname = "" /\ mdjob = <<>>
+        /\ ffacts = <<>> /\ vmode = ""
 
 Ev == Trace[l]
 Viol(p, what) == [run |-> run, line |-> l, prop |-> p, job |-> Ev.job, what |-> what]
@@ -71,6 +76,7 @@ RunBegin ==
     /\ phase' = 0 /\ tainted' = FALSE /\ weakp' = Ev.weak
     /\ pcr' = IF Ev.kind = "crash" THEN "C05" ELSE "C06"
     /\ jowner' = <<>> /\ routing' = "" /\ rname' = "" /\ mdjob' = <<>>
+    /\ ffacts' = FnOf(Ev.facts) /\ vmode' = Ev.txt
     /\ UNCHANGED bad
 
 (* ---- guards on the start of a job ---- *)
@@ -78,7 +84,9 @@ BeginViolations ==
     LET j == Ev.job
         known == j \in DOMAIN exp
         e == exp[j]
-        um == IF known /\ (WeakBroken(e) \/ tainted) THEN "unforked-merge: " ELSE ""
+        \* the consumer of an unforked merge is the call site of the known defect,
+        \* whether or not the producer of the collection happened to be finished
+        um == IF known /\ (WeakBroken(e) \/ tainted \/ e.wdeps # <<>>) THEN "unforked-merge: " ELSE ""
     IN  (IF ~known /\ Ev.kind # "placeholder"
          THEN <<Viol("C03", "a job was executed that the program does not contain: " \o j)>> ELSE <<>>)
      \o (IF Ev.kind = "placeholder"
@@ -104,6 +112,9 @@ BeginViolations ==
          THEN <<Viol("C02", "join started before every chunk finished")>> ELSE <<>>)
      \o (IF known /\ ~Ev.flag
          THEN <<Viol("C01", um \o "arguments differ from what the bindings denote: " \o Ev.txt)>> ELSE <<>>)
+     \o (IF Ev.files # <<>>
+         THEN <<Viol("C04", "a stage did not find a file named in its arguments when it started: " \o Ev.files[1])>>
+         ELSE <<>>)
      \o (IF known /\ \E d \in Range(e.deps) : d \in failed
          THEN <<Viol("C06", "job started although a call it depends on has failed: "
                      \o (CHOOSE d \in Range(e.deps) : d \in failed))>> ELSE <<>>)
@@ -114,20 +125,20 @@ StageBegin ==
     /\ begun' = begun \cup {Ev.job}
     /\ killed' = killed \ {Ev.job}
     /\ tainted' = (tainted \/ (Ev.job \in DOMAIN exp /\ WeakBroken(exp[Ev.job])))
-    /\ UNCHANGED <<run, exp, faults, ended, done0, failed, phase, pcr, weakp, jvars>>
+    /\ UNCHANGED <<fvars, run, exp, faults, ended, done0, failed, phase, pcr, weakp, jvars>>
 
 StageEnd ==
     /\ Ev.ev = "StageEnd"
     /\ ended' = (Ev.job :> Ev.outcome) @@ ended
     /\ failed' = IF Ev.outcome # "ok" /\ Ev.job \in DOMAIN exp
                  THEN failed \cup {exp[Ev.job].inst} ELSE failed
-    /\ UNCHANGED <<run, exp, faults, begun, killed, done0, phase, pcr, weakp, tainted, bad, jvars>>
+    /\ UNCHANGED <<fvars, run, exp, faults, begun, killed, done0, phase, pcr, weakp, tainted, bad, jvars>>
 
 (* a job that was running when mrp exited dies with it *)
 StageKilled ==
     /\ Ev.ev = "StageKilled"
     /\ killed' = killed \cup {Ev.job}
-    /\ UNCHANGED <<run, exp, faults, begun, ended, done0, failed, phase, pcr, weakp, tainted, bad, jvars>>
+    /\ UNCHANGED <<fvars, run, exp, faults, begun, ended, done0, failed, phase, pcr, weakp, tainted, bad, jvars>>
 
 (* C11: every notification is attributed to exactly the job directory (node, fork,
    chunk, attempt) that wrote it, and distinct jobs never share a directory *)
@@ -137,21 +148,21 @@ JobSubmitted ==
                       THEN <<Viol("C11", "two distinct jobs share one directory " \o Ev.kind \o ": also " \o mdjob[Ev.kind])>>
                       ELSE <<>>)
     /\ mdjob' = (Ev.kind :> Ev.job) @@ mdjob
-    /\ UNCHANGED <<run, exp, faults, begun, ended, killed, done0, failed, phase, pcr, weakp, tainted, jowner, routing, rname>>
+    /\ UNCHANGED <<fvars, run, exp, faults, begun, ended, killed, done0, failed, phase, pcr, weakp, tainted, jowner, routing, rname>>
 JournalWrite ==
     /\ Ev.ev = "JournalWrite"
     /\ bad' = bad \o (IF Ev.txt \in DOMAIN jowner /\ jowner[Ev.txt] # Ev.kind
                       THEN <<Viol("C11", "two jobs write the same journal name " \o Ev.txt)>> ELSE <<>>)
     /\ jowner' = (Ev.txt :> Ev.kind) @@ jowner
-    /\ UNCHANGED <<run, exp, faults, begun, ended, killed, done0, failed, phase, pcr, weakp, tainted, routing, rname, mdjob>>
+    /\ UNCHANGED <<fvars, run, exp, faults, begun, ended, killed, done0, failed, phase, pcr, weakp, tainted, routing, rname, mdjob>>
 JournalSeen ==
     /\ Ev.ev = "JournalSeen"
     /\ routing' = Ev.txt /\ rname' = Ev.kind
-    /\ UNCHANGED <<run, exp, faults, begun, ended, killed, done0, failed, phase, pcr, weakp, tainted, jowner, mdjob, bad>>
+    /\ UNCHANGED <<fvars, run, exp, faults, begun, ended, killed, done0, failed, phase, pcr, weakp, tainted, jowner, mdjob, bad>>
 JournalRemove ==
     /\ Ev.ev = "JournalRemove"
     /\ routing' = "" /\ rname' = ""
-    /\ UNCHANGED <<run, exp, faults, begun, ended, killed, done0, failed, phase, pcr, weakp, tainted, jowner, mdjob, bad>>
+    /\ UNCHANGED <<fvars, run, exp, faults, begun, ended, killed, done0, failed, phase, pcr, weakp, tainted, jowner, mdjob, bad>>
 MdCache ==
     /\ Ev.ev = "MdCache"
     \* (asynchronous cleanup goroutines cache their own files meanwhile: only the
@@ -160,7 +171,63 @@ MdCache ==
                       THEN <<Viol("C11", "the notification " \o routing \o " written for " \o jowner[routing]
                                          \o " was attributed to " \o Ev.kind)>>
                       ELSE <<>>)
-    /\ UNCHANGED <<run, exp, faults, begun, ended, killed, done0, failed, phase, pcr, weakp, tainted, jvars>>
+    /\ UNCHANGED <<fvars, run, exp, faults, begun, ended, killed, done0, failed, phase, pcr, weakp, tainted, jvars>>
+
+(* ---- files (C04, C14) ---- *)
+Keep(f) == ffacts[f].top \/ ffacts[f].retained
+(* may (must, at completion) the runtime reclaim what a stage wrote *)
+Volatile(vol, svol) == vol \/ svol = "strict" \/ (vmode = "strict" /\ svol # "false")
+ReclaimFile(f) == ~Keep(f) /\ (ffacts[f].chunk \/ Volatile(ffacts[f].vol, ffacts[f].svol))
+ReclaimExtra(j) == j \in DOMAIN exp /\ ((exp[j].kind = "main" /\ exp[j].split) \/ Volatile(exp[j].vol, exp[j].svol))
+
+RemoveViolations ==
+    LET known == {f \in Range(Ev.files) : f \in DOMAIN ffacts}
+        kept == {f \in known : Keep(f)}
+        live == {f \in known : \E u \in Range(ffacts[f].users) : ~OkEnded(u)}
+    IN  (IF kept # {}
+         THEN <<Viol("C04", "removed a file named by a top-level output or a retain declaration: "
+                     \o (CHOOSE f \in kept : TRUE) \o " (" \o Ev.txt \o ")")>> ELSE <<>>)
+     \o (IF live \ kept # {}
+         THEN LET f == CHOOSE f \in live \ kept : TRUE IN
+              <<Viol("C04", "removed a file while a call it was handed to had not finished: " \o f \o " needed by "
+                     \o (CHOOSE u \in Range(ffacts[f].users) : ~OkEnded(u)) \o " (" \o Ev.txt \o ")")>> ELSE <<>>)
+     \o (IF ~Ev.flag
+         THEN <<Viol("C14", "removed a path outside the pipestance directory: " \o Ev.txt)>> ELSE <<>>)
+VdrRemove ==
+    /\ Ev.ev = "VdrRemove"
+    /\ bad' = bad \o RemoveViolations
+    /\ UNCHANGED <<fvars, run, exp, faults, begun, ended, killed, done0, failed, phase, pcr, weakp, tainted, jvars>>
+
+(* final state of a completed run: files = present, gs = gone or damaged, xs / ts =
+   jobs whose unreferenced / temporary file survives, ls = paths a kill report lists
+   that still exist, nums = <<report count, report size, removed regular files, their
+   bytes, removed directory entries (files and directories, mrp's unit of account;
+   of a temporary directory only its contents), their bytes>> *)
+FinalViolations ==
+    LET lostkeep == {f \in Range(Ev.gs) : f \in DOMAIN ffacts /\ Keep(f)}
+        survived == {f \in Range(Ev.files) : f \in DOMAIN ffacts /\ ReclaimFile(f)}
+        xsurv == {j \in Range(Ev.xs) : ReclaimExtra(j)}
+        n == Ev.nums
+    IN  (IF lostkeep # {}
+         THEN <<Viol("C04", "a file named by a top-level output or a retain declaration does not exist with its original content at completion: "
+                     \o (CHOOSE f \in lostkeep : TRUE))>> ELSE <<>>)
+     \o (IF survived # {}
+         THEN <<Viol("C14", "a file that had to be reclaimed survives completion: " \o (CHOOSE f \in survived : TRUE))>> ELSE <<>>)
+     \o (IF xsurv # {}
+         THEN <<Viol("C14", "an unreferenced file of a volatile stage (or of a chunk of a splitting stage) survives completion: job "
+                     \o (CHOOSE j \in xsurv : TRUE))>> ELSE <<>>)
+     \o (IF Ev.ts # <<>>
+         THEN <<Viol("C14", "a per-job temporary directory survives completion: job " \o Ev.ts[1])>> ELSE <<>>)
+     \o (IF Ev.ls # <<>>
+         THEN <<Viol("C14", "a path listed in the kill report still exists: " \o Ev.ls[1])>> ELSE <<>>)
+     \o (IF n[1] >= 0 /\ ~(n[1] = n[5] /\ n[2] = n[6])
+         THEN <<Viol("C14", "the kill report does not say what was removed: it reports " \o ToString(n[1]) \o " files, "
+                     \o ToString(n[2]) \o " bytes; removed were " \o ToString(n[5]) \o " directory entries (" \o ToString(n[3])
+                     \o " regular files), " \o ToString(n[6]) \o " bytes")>> ELSE <<>>)
+VdrFinal ==
+    /\ Ev.ev = "VdrFinal"
+    /\ bad' = bad \o FinalViolations
+    /\ UNCHANGED <<fvars, run, exp, faults, begun, ended, killed, done0, failed, phase, pcr, weakp, tainted, jvars>>
 
 (* mrp was interrupted: killed outright, or by a signal it handles - then the
    pipestance must be left unlocked (flag = no _lock after the exit) *)
@@ -169,7 +236,7 @@ Interrupted ==
     /\ bad' = bad \o (IF Ev.kind # "SIGKILL" /\ ~Ev.flag
                       THEN <<Viol("C05", "mrp exited on the handled signal " \o Ev.kind \o " but left the pipestance locked")>>
                       ELSE <<>>)
-    /\ UNCHANGED <<run, exp, faults, begun, ended, killed, done0, failed, phase, pcr, weakp, tainted, jvars>>
+    /\ UNCHANGED <<fvars, run, exp, faults, begun, ended, killed, done0, failed, phase, pcr, weakp, tainted, jvars>>
 
 (* ---- guards on the final state of an incarnation ---- *)
 EndViolations ==
@@ -201,7 +268,7 @@ EndViolations ==
 RunEnd ==
     /\ Ev.ev = "RunEnd"
     /\ bad' = bad \o EndViolations
-    /\ UNCHANGED <<run, exp, faults, begun, ended, killed, done0, failed, phase, pcr, weakp, tainted, jvars>>
+    /\ UNCHANGED <<fvars, run, exp, faults, begun, ended, killed, done0, failed, phase, pcr, weakp, tainted, jvars>>
 
 (* the operator removes the fault and starts mrp again on the same directory *)
 Restart ==
@@ -210,17 +277,17 @@ Restart ==
     /\ faults' = <<>>
     /\ done0' = {k \in DOMAIN ended : OkEnded(k)}
     /\ begun' = {} /\ failed' = {}
-    /\ UNCHANGED <<run, exp, ended, killed, pcr, weakp, tainted, bad, jvars>>
+    /\ UNCHANGED <<fvars, run, exp, ended, killed, pcr, weakp, tainted, bad, jvars>>
 
 Other ==
     /\ Ev.ev \notin {"RunBegin", "StageBegin", "StageEnd", "StageKilled", "RunEnd", "Restart", "Interrupted",
-                     "JobSubmitted", "JournalWrite", "JournalSeen", "JournalRemove", "MdCache"}
-    /\ UNCHANGED <<run, exp, faults, begun, ended, killed, done0, failed, phase, pcr, weakp, tainted, bad, jvars>>
+                     "JobSubmitted", "JournalWrite", "JournalSeen", "JournalRemove", "MdCache", "VdrRemove", "VdrFinal"}
+    /\ UNCHANGED <<fvars, run, exp, faults, begun, ended, killed, done0, failed, phase, pcr, weakp, tainted, bad, jvars>>
 
 Next == /\ l <= Len(Trace)
         /\ l' = l + 1
         /\ (RunBegin \/ StageBegin \/ StageEnd \/ StageKilled \/ RunEnd \/ Restart \/ Interrupted
-            \/ JobSubmitted \/ JournalWrite \/ JournalSeen \/ JournalRemove \/ MdCache \/ Other)
+            \/ JobSubmitted \/ JournalWrite \/ JournalSeen \/ JournalRemove \/ MdCache \/ VdrRemove \/ VdrFinal \/ Other)
 
 Spec == Init /\ [][Next]_vars
 
